@@ -161,8 +161,10 @@ def check(ctx, run):
                           '(a scalar against an array) the elements are read under the wrong layout', f"{t_.get('file')}:{t_.get('line')}")
             continue
         nargs = 1 if fn.endswith('distinct_jsonb') else 2
-        ok = len(heads) == nargs and all(v == {0x80000000, 0x40000000, 'otherwise'} for v in heads.values())
-        if not ok and len(heads) < nargs and all(v == {0x80000000, 0x40000000, 'otherwise'} for v in heads.values()):
+        # array and object arms, and a scalar arm: the fall-through, or the scalar kind spelled out (next to a fall-through or not)
+        arms_ok = lambda v: {0x80000000, 0x40000000} <= v and ('otherwise' in v or 0x20000000 in v) and v <= {0x80000000, 0x40000000, 0x20000000, 'otherwise'}
+        ok = len(heads) == nargs and all(arms_ok(v) for v in heads.values())
+        if not ok and len(heads) < nargs and all(arms_ok(v) for v in heads.values()):
             run.undecided('R13.4', fn, 'dispatch', f'only {len(heads)} of {nargs} argument headers are dispatched in this function (the other in a helper?): not decided', f'{b.file}:{b.line}')
             continue
         (run.proved if ok else run.violation)('R13.4', fn, 'dispatch', 'array / object / scalar arms for every argument' if ok else f'header dispatch arms: {heads}', f'{b.file}:{b.line}')
@@ -211,7 +213,10 @@ def check(ctx, run):
                     unsure += 1
                 else:
                     bad += 1
-        if n and not bad and unsure:
+        if not n:
+            run.undecided('R13.6', b.path, 'true-paths', 'no path returns the constant true: the answer is handed back as a computed value (the result of any() / contains()), which this '
+                          'clause does not trace: not decided', f'{b.file}:{b.line}')
+        elif n and not bad and unsure:
             run.undecided('R13.6', b.path, 'true-paths', f'{unsure} of {n} path(s) return true after a test on an element of the first list that this rule does not read (a closure or helper): '
                           'whether it is membership in the set built from the second list is not decided', f'{b.file}:{b.line}')
         else:
